@@ -326,6 +326,22 @@ def run(ctx, chk):
     # ------------------------------------------------------------ N5/N6 worker loops
     for cid, holder in loops.items():
         abort_and_blocking(fb, chk, cid, holder, msgs)
+    # N6 also outside the loops: nothing a worker thread runs from its entry point to its loop (start-up, hand-over) may
+    # block on another thread -- a worker parked there never reads its mailbox, so ThreadAbort cannot reach it
+    for cid, wb in workers.items():
+        seen_sites = set()
+        for ob_, bb, t, fn in common.reachable_calls(fb, wb):
+            nm = mir.callee_name(fn)
+            if fb.body(nm) is not None or (ob_.path, bb) in seen_sites:
+                continue
+            seen_sites.add((ob_.path, bb))
+            if nm.endswith(('Receiver::<T>::recv', 'Receiver::<T>::recv_timeout', 'Receiver::<T>::try_recv')):
+                continue        # the mailbox reads are judged per loop above
+            if any(x in nm for x in BLOCKING_DENY):
+                chk.ob('C15.N6', 'blocking:%s:%s' % (cid, nm.split('::')[-1]), False, ob_.where(bb),
+                       '%s (reached from the %s thread\'s entry point) can park the thread indefinitely; a parked worker never '
+                       'sees ThreadAbort and the manager blocks in join()' % (nm, cid))
+        chk.analysed['call_sites'] += len(seen_sites)
 
     # ------------------------------------------------------------ N7 main
     mains = [b for b in fb.bodies() if b.name == 'main' and b.crate.kind == 'bin' and b.crate.name == 'clockbound']
